@@ -4088,6 +4088,9 @@ fn main() {
         if fo.body.contains("Rs.Aes") || fo.body.contains("Rs.Hmac") {
             writeln!(text, "import ZipVerif.Basic.RsAes").unwrap();
         }
+        if fo.body.contains("Rs.PathOps") || fo.body.contains("Rs.Component") || fo.body.contains("Rs.Str.") {
+            writeln!(text, "import ZipVerif.Basic.RsPath").unwrap();
+        }
         for i in &fo.imports {
             // a dotted name is a module outside `Gen/` (hand-written glue), taken verbatim
             if i.contains('.') { writeln!(text, "import {i}").unwrap(); } else { writeln!(text, "import ZipVerif.Gen.{i}").unwrap(); }
